@@ -8,6 +8,7 @@ import (
 	"net"
 	"os"
 	"syscall"
+	"time"
 	"net/http"
 	"net/url"
 	"sort"
@@ -209,6 +210,9 @@ func BuildWorld(sc *Scenario, bo BuildOpt) (w *World) {
 	}
 	if o.EncodedPath {
 		opts = append(opts, rux.UseEncodedPath)
+	}
+	if o.Intercept != "" {
+		opts = append(opts, rux.InterceptAll(o.Intercept))
 	}
 	w.R = rux.New(opts...)
 	if o.OnPanic != "" {
@@ -689,6 +693,11 @@ func (w *World) act(rs *reqState, id string, c *rux.Context, a Action) {
 		c.Req = c.Req.WithContext(context.WithValue(c.Req.Context(), swapKey{}, id))
 	case "yield":
 		taskYield(-1)
+	case "editquery": // a handler that works on the parsed query it was given
+		q := c.QueryValues()
+		q.Set("q", "edited-by-"+id)
+		q.Set("page", "2")
+		_ = q.Encode()
 	case "buildurl": // build a link from a named route and decorate it, as a handler rendering a page does
 		if rt := c.Router().GetRoute(a.S); rt != nil {
 			u := c.Router().BuildURL(a.S)
@@ -877,10 +886,22 @@ func newHTTPRequest(method, path string, rs *reqState) *http.Request {
 		req.Header.Set("Content-Type", "application/x-www-form-urlencoded")
 		req.Body = io.NopCloser(strings.NewReader("user=u" + tok))
 	}
-	ctx, cancel := context.WithCancel(context.WithValue(context.Background(), ctxKey{}, rs))
+	base := context.WithValue(context.Background(), ctxKey{}, rs)
+	if rs.req.Served {
+		// what net/http's server puts into every request context
+		base = context.WithValue(base, http.ServerContextKey, &http.Server{})
+		base = context.WithValue(base, http.LocalAddrContextKey, &net.TCPAddr{IP: net.IPv4(127, 0, 0, 1), Port: 80})
+	}
+	ctx, cancel := context.WithCancel(base)
+	if rs.req.Expired {
+		ctx, cancel = context.WithDeadline(base, time.Unix(1, 0)) // a deadline in 1970: passed, whatever the wall clock says
+	}
 	rs.cancel = cancel
 	if rs.req.Gone {
 		cancel()
+	}
+	if rs.req.HTTP10 {
+		req.Proto, req.ProtoMajor, req.ProtoMinor = "HTTP/1.0", 1, 0
 	}
 	return req.WithContext(ctx)
 }
